@@ -30,7 +30,7 @@ def parseSLabel (w : String) : Option Sched.Label :=
     | _ => none
   | 't' => body.toNat?.map .tick
   | 's' => if body.isEmpty then some .sched else none
-  | 'S' => if body.isEmpty then some .spurious else none
+  | 'z' => if body.isEmpty then some .sleep else none
   | 'd' => match body.splitOn ":" with
     | [a, b] => match a.toNat?, parseCause b with | some x, some c => some (.dequeue x c) | _, _ => none
     | _ => none
@@ -43,6 +43,7 @@ def parseSLabel (w : String) : Option Sched.Label :=
   | 'R' => body.toNat?.map .remove
   | 'Q' => body.toNat?.map .requeue
   | 'f' => if body.isEmpty then some .flush else none
+  | 'p' => if body.isEmpty then some .poke else none
   | _ => none
 
 def showLog (s : Sched.State) : String :=
